@@ -437,9 +437,9 @@ class Interp(object):
                     k, suf = w[1], w[2]
                     a = args[k] if k < len(args) else None
                     if a is not None and a[0] == "p":
-                        self._havoc_write(state, a[1], suf)
+                        self._havoc_write(state, a[1], suf, ins)
                 elif w[0] == "G":
-                    self._havoc_write(state, (("G", w[1]),), w[2])
+                    self._havoc_write(state, (("G", w[1]),), w[2], ins)
             return
         tab = effects.EXT_WRITES.get(callee, "default")
         idxs = range(len(args)) if (tab == "default" or tab is None) else tab
@@ -448,7 +448,7 @@ class Interp(object):
             if a is not None and a[0] == "p":
                 self._havoc(state, a[1])
 
-    def _havoc_write(self, state, base, suf):
+    def _havoc_write(self, state, base, suf, ins=None):
         wild = bool(suf) and suf[-1] == ("**",)
         body = tuple(s for s in suf if s != ("**",))
         full = tuple(base) + body
@@ -459,7 +459,10 @@ class Interp(object):
             if k == full or (wild and k[:n] == full) or (full[-1:] == (("i",),) and k == full[:-1]):
                 state[k] = TOP
                 hit = True
-        if not hit and not wild:
+        if not wild and ("i",) not in full and ins is not None and base and base[0][0] == "L":
+            # a scalar out-parameter (address of a local) written by the callee: name the unknown new value
+            state[full] = ("s", "w%d:%s" % (ins.i, fmt_path(full, self.f)))
+        elif not hit and not wild:
             state[full] = TOP
 
     def _havoc(self, state, prefix):
@@ -514,7 +517,7 @@ class Interp(object):
     def _store_atom(self, ins, path, v, state):
         for name, pred in self.store_atoms:
             r = pred(self, ins, path, v)
-            if r:
+            if r is not None:
                 self._emit(ins, (name,) + (tuple(r) if isinstance(r, (tuple, list)) else ()))
 
 
